@@ -44,6 +44,9 @@ type CaseA struct {
 	FetchDelayMs []int   `json:"fetch_delay_ms"`  // per request (mod)
 	UploadDelay  []int   `json:"upload_delay_ms"` // per request (mod)
 	BackendMs    []int   `json:"backend_ms"`      // per request (mod)
+	// FailUploads: requests (indices) whose first three response uploads are ended by the proxy without an answer
+	// (the agent gives up after three attempts); the proxy keeps listing such a request, as the App Engine proxy does.
+	FailUploads []int `json:"fail_uploads,omitempty"`
 }
 
 func genCaseA(t *rapid.T) CaseA {
@@ -90,6 +93,9 @@ func genCaseA(t *rapid.T) CaseA {
 	c.FetchDelayMs = rapid.SliceOfN(rapid.SampledFrom(delays), 1, 5).Draw(t, "fetchDelay")
 	c.UploadDelay = rapid.SliceOfN(rapid.SampledFrom(delays), 1, 5).Draw(t, "uploadDelay")
 	c.BackendMs = rapid.SliceOfN(rapid.SampledFrom(delays), 1, 5).Draw(t, "backendMs")
+	if rapid.IntRange(0, 3).Draw(t, "uploadFaults") == 0 {
+		c.FailUploads = rapid.SliceOfNDistinct(rapid.IntRange(0, c.N-1), 1, 3, func(i int) int { return i }).Draw(t, "failUploads")
+	}
 	return c
 }
 
@@ -190,9 +196,31 @@ func runCaseA(t vh.TB, c *CaseA) vh.Outcome {
 		}
 		return false
 	}
+	faulty := map[string]bool{}
+	for _, ix := range c.FailUploads {
+		if ix >= 0 && ix < c.N {
+			faulty[ids[ix]] = true
+		}
+	}
+	var fmu sync.Mutex
+	droppedUploads := map[string]int{}
 	r.fp.UploadHook = func(q *vh.FPRequest, w http.ResponseWriter, rq *http.Request) bool {
 		if d := uploadDelay[q.ID]; d > 0 {
 			time.Sleep(time.Duration(d) * time.Millisecond)
+		}
+		if faulty[q.ID] {
+			fmu.Lock()
+			n := droppedUploads[q.ID]
+			droppedUploads[q.ID]++
+			fmu.Unlock()
+			if n < 3 {
+				// the upload is read and the connection closed without any answer
+				io.Copy(io.Discard, rq.Body)
+				if conn, _, err := http.NewResponseController(w).Hijack(); err == nil {
+					conn.Close()
+				}
+				return true
+			}
 		}
 		return false
 	}
@@ -243,9 +271,42 @@ func runCaseA(t vh.TB, c *CaseA) vh.Outcome {
 	} else if c.N > 10 {
 		o.Classes = append(o.Classes, "more-than-10-outstanding")
 	}
+	if len(faulty) > 0 {
+		o.Classes = append(o.Classes, "upload-of-a-request-fails-three-times")
+		// once the agent has given up on those uploads the proxy, which has no response on record, lists the requests again
+		for deadline := time.Now().Add(15 * time.Second); time.Now().Before(deadline); time.Sleep(5 * time.Millisecond) {
+			done := true
+			fmu.Lock()
+			for id := range faulty {
+				for i := range ids {
+					if ids[i] == id && listed[i] > 0 && droppedUploads[id] < 3 {
+						done = false
+					}
+				}
+			}
+			fmu.Unlock()
+			if done {
+				break
+			}
+		}
+		for k := 0; k < 2; k++ {
+			time.Sleep(100 * time.Millisecond)
+			var again []string
+			for i := range ids {
+				if faulty[ids[i]] && listed[i] > 0 {
+					again = append(again, ids[i])
+					listed[i]++
+				}
+			}
+			r.fp.List(again...)
+			for deadline := time.Now().Add(20 * time.Second); r.fp.QueueLen() > 0 && time.Now().Before(deadline); time.Sleep(time.Millisecond) {
+			}
+		}
+		time.Sleep(300 * time.Millisecond)
+	}
 	// every listed request must complete
 	for i := range reqs {
-		if listed[i] == 0 {
+		if listed[i] == 0 || faulty[ids[i]] {
 			continue
 		}
 		if up := reqs[i].Wait(30 * time.Second); up == nil {
@@ -272,6 +333,9 @@ func runCaseA(t vh.TB, c *CaseA) vh.Outcome {
 			o.Err = fmt.Errorf("request %d (%s) was listed %d times and forwarded to the backend %d times (want %d); fetches=%d uploads=%d",
 				i, ids[i], listed[i], n, want, reqs[i].FetchCount(), reqs[i].UploadCount())
 			return o
+		}
+		if faulty[ids[i]] {
+			continue // (whether a response eventually arrives for a request whose uploads failed is not promised)
 		}
 		if u := reqs[i].UploadCount(); u != want {
 			o.Err = fmt.Errorf("request %d (%s) was listed %d times and its response uploaded %d times (want %d)", i, ids[i], listed[i], u, want)
